@@ -209,4 +209,61 @@ Proof.
   intros HB H. rewrite drain_row_spec. eapply drain_batch_fuel_ok; eauto.
 Qed.
 
+(* ---------------------------------------------------------------- the fuel is enough *)
+(* With B >= 1 and a filter / projection that answer every chunk (one verdict / row per pair),
+   the drains never run out of fuel: OutOfModel is not produced by the fuel bound. *)
+Section Total.
+Hypothesis Tf : forall c, exists bs, fbatch c = Ok bs /\ List.length bs = List.length c.
+Hypothesis Tp : forall c, exists rs, pbatch c = Ok rs /\ List.length rs = List.length c.
+
+Lemma select_matches_total : forall (chunk : list P) ms,
+  List.length ms = List.length chunk -> exists sel, select_matches chunk ms = Ok sel.
+Proof.
+  induction chunk as [|kv chunk IH]; intros [|m ms] Hl; cbn in Hl; try discriminate.
+  - exists []. reflexivity.
+  - destruct (IH ms ltac:(lia)) as (sel & Es). cbn. rewrite Es. cbn. eauto.
+Qed.
+
+Lemma scan_loop_total : forall fuel B rest ret,
+  1 <= B -> List.length rest < fuel ->
+  exists out rest', scan_batch_loop fbatch fuel B rest ret = Ok (out, rest').
+Proof.
+  induction fuel as [|f IH]; intros B rest ret HB Hl; [lia|].
+  cbn [scan_batch_loop].
+  assert (Hsk : Nat.ltb (List.length rest) B = false -> List.length (skipn B rest) < f).
+  { intros E. apply Nat.ltb_ge in E. rewrite skipn_length. lia. }
+  destruct (somes (firstn B rest)) as [|kv0 chunk'] eqn:Ech.
+  - destruct (Nat.ltb (List.length rest) B) eqn:Eof; [eauto|]. apply IH; auto.
+  - destruct (Tf (kv0 :: chunk')) as (ms & Ems & Hlen). rewrite Ems. cbn [bind].
+    destruct (select_matches_total _ _ Hlen) as (sel & Es). rewrite Es. cbn [bind].
+    destruct (Nat.ltb (List.length rest) B) eqn:Eof; cbn [orb]; [eauto|].
+    destruct (Nat.leb B (List.length (ret ++ sel))); [eauto|]. apply IH; auto.
+Qed.
+
+Lemma drain_batch_fuel_total : forall fuel B rest,
+  1 <= B -> List.length rest < fuel ->
+  exists outs, drain_batch_fuel fbatch pbatch fuel B rest = Ok outs.
+Proof.
+  induction fuel as [|f IH]; intros B rest HB Hl; [lia|].
+  cbn [drain_batch_fuel]. unfold proj_batch.
+  destruct (scan_loop_total (S (List.length rest)) B rest [] HB ltac:(lia)) as (out & rest' & Es).
+  unfold scan_batch. rewrite Es. cbn [bind].
+  destruct out as [|kv out].
+  - cbn [bind]. eauto.
+  - destruct (Tp (kv :: out)) as (rs & Ers & Hlen). rewrite Ers. cbn [bind].
+    destruct rs as [|r rs]; [cbn in Hlen; discriminate|].
+    assert (Hshort : List.length rest' < List.length rest).
+    { fold (scan_batch fbatch B rest) in Es.
+      destruct (scan_batch_ok _ _ _ _ HB Es) as (consumed & E1 & E2 & _).
+      destruct consumed as [|c0 consumed]; [discriminate E2|].
+      rewrite E1. cbn [List.length app]. rewrite app_length. lia. }
+    destruct (IH B rest' HB ltac:(lia)) as (outs & Eo). rewrite Eo. cbn [bind]. eauto.
+Qed.
+
+Theorem drain_batch_total B rest :
+  1 <= B -> exists outs, drain_batch fbatch pbatch B rest = Ok outs.
+Proof. intros HB. apply drain_batch_fuel_total; [exact HB | lia]. Qed.
+
+End Total.
+
 End Abstract.
